@@ -424,10 +424,12 @@ class Parser:
             if f != "ref":
                 raise Refuse("increment through a pointer that is not the counted field")
             return f".inc {pe}"
-        # `usize capacity = …;` only directly before an allocation
-        if s[:3] == ["usize", "capacity", "="]:
-            if "new" not in self.t[self.i:self.i + 12]:
-                raise Refuse("`usize capacity = …` that is not followed by an allocation")
+        # scalar locals computed without calls from lengths / capacities (`usize capacity = minCapacity | 0x3;`): no effect on
+        # handles; a local that holds the COUNTER is refused (the read of the counter is the guard itself)
+        if (s[:1] == ["usize"] or s[:2] == ["const", "usize"]) and "=" in s:
+            k = s.index("=")
+            if "(" in s[k:] or "ref" in s[k:] or not re.fullmatch(r"[A-Za-z_]\w*", s[k - 1]) or s[k - 1] == "ref":
+                raise Refuse(f"scalar local not understood: {' '.join(s)}")
             return ".skip"
         r = self.block_stmt(s)
         if r is not None:
